@@ -74,6 +74,7 @@ Record an_task := {
   at_sent : Z;
   at_pickup : Z;
   at_blocked : Z;                      (* total time the dispatcher was blocked in sendInnerCallback *)
+  at_late : Z;                         (* the part of it that lay beyond the attempt's own deadline *)
   at_inv : list (nat * Z);             (* handler invocations: attempt, start time *)
   at_ret : list an_retrec;
   at_dec : list (nat * an_pair * Z);   (* dispatcher decisions: attempt, pair stored in the fields, time *)
@@ -85,52 +86,56 @@ Record an_task := {
 Definition an_task0 : an_task :=
   {| at_opts := {| ao_T := 0; ao_R := 0; ao_discard := false; ao_onerr := false; ao_behs := [] |};
      at_phase := AnUnsent; at_fields := (None, AnNil); at_chan := [];
-     at_sent := 0; at_pickup := 0; at_blocked := 0; at_inv := []; at_ret := []; at_dec := [];
+     at_sent := 0; at_pickup := 0; at_blocked := 0; at_late := 0; at_inv := []; at_ret := []; at_dec := [];
      at_onerr := []; at_rel := []; at_get2 := [] |}.
 
 Definition at_set_phase (t : an_task) (x : an_phase) : an_task :=
   {| at_opts := at_opts t; at_phase := x; at_fields := at_fields t; at_chan := at_chan t;
-     at_sent := at_sent t; at_pickup := at_pickup t; at_blocked := at_blocked t; at_inv := at_inv t;
+     at_sent := at_sent t; at_pickup := at_pickup t; at_blocked := at_blocked t; at_late := at_late t; at_inv := at_inv t;
      at_ret := at_ret t; at_dec := at_dec t; at_onerr := at_onerr t; at_rel := at_rel t; at_get2 := at_get2 t |}.
 Definition at_set_fields (t : an_task) (x : an_pair) : an_task :=
   {| at_opts := at_opts t; at_phase := at_phase t; at_fields := x; at_chan := at_chan t;
-     at_sent := at_sent t; at_pickup := at_pickup t; at_blocked := at_blocked t; at_inv := at_inv t;
+     at_sent := at_sent t; at_pickup := at_pickup t; at_blocked := at_blocked t; at_late := at_late t; at_inv := at_inv t;
      at_ret := at_ret t; at_dec := at_dec t; at_onerr := at_onerr t; at_rel := at_rel t; at_get2 := at_get2 t |}.
 Definition at_set_chan (t : an_task) (x : list (nat * an_pair)) : an_task :=
   {| at_opts := at_opts t; at_phase := at_phase t; at_fields := at_fields t; at_chan := x;
-     at_sent := at_sent t; at_pickup := at_pickup t; at_blocked := at_blocked t; at_inv := at_inv t;
+     at_sent := at_sent t; at_pickup := at_pickup t; at_blocked := at_blocked t; at_late := at_late t; at_inv := at_inv t;
      at_ret := at_ret t; at_dec := at_dec t; at_onerr := at_onerr t; at_rel := at_rel t; at_get2 := at_get2 t |}.
 Definition at_set_pickup (t : an_task) (x : Z) : an_task :=
   {| at_opts := at_opts t; at_phase := at_phase t; at_fields := at_fields t; at_chan := at_chan t;
-     at_sent := at_sent t; at_pickup := x; at_blocked := at_blocked t; at_inv := at_inv t;
+     at_sent := at_sent t; at_pickup := x; at_blocked := at_blocked t; at_late := at_late t; at_inv := at_inv t;
      at_ret := at_ret t; at_dec := at_dec t; at_onerr := at_onerr t; at_rel := at_rel t; at_get2 := at_get2 t |}.
 Definition at_set_blocked (t : an_task) (x : Z) : an_task :=
   {| at_opts := at_opts t; at_phase := at_phase t; at_fields := at_fields t; at_chan := at_chan t;
-     at_sent := at_sent t; at_pickup := at_pickup t; at_blocked := x; at_inv := at_inv t;
+     at_sent := at_sent t; at_pickup := at_pickup t; at_blocked := x; at_late := at_late t; at_inv := at_inv t;
+     at_ret := at_ret t; at_dec := at_dec t; at_onerr := at_onerr t; at_rel := at_rel t; at_get2 := at_get2 t |}.
+Definition at_set_late (t : an_task) (x : Z) : an_task :=
+  {| at_opts := at_opts t; at_phase := at_phase t; at_fields := at_fields t; at_chan := at_chan t;
+     at_sent := at_sent t; at_pickup := at_pickup t; at_blocked := at_blocked t; at_late := x; at_inv := at_inv t;
      at_ret := at_ret t; at_dec := at_dec t; at_onerr := at_onerr t; at_rel := at_rel t; at_get2 := at_get2 t |}.
 Definition at_set_inv (t : an_task) (x : list (nat * Z)) : an_task :=
   {| at_opts := at_opts t; at_phase := at_phase t; at_fields := at_fields t; at_chan := at_chan t;
-     at_sent := at_sent t; at_pickup := at_pickup t; at_blocked := at_blocked t; at_inv := x;
+     at_sent := at_sent t; at_pickup := at_pickup t; at_blocked := at_blocked t; at_late := at_late t; at_inv := x;
      at_ret := at_ret t; at_dec := at_dec t; at_onerr := at_onerr t; at_rel := at_rel t; at_get2 := at_get2 t |}.
 Definition at_set_ret (t : an_task) (x : list an_retrec) : an_task :=
   {| at_opts := at_opts t; at_phase := at_phase t; at_fields := at_fields t; at_chan := at_chan t;
-     at_sent := at_sent t; at_pickup := at_pickup t; at_blocked := at_blocked t; at_inv := at_inv t;
+     at_sent := at_sent t; at_pickup := at_pickup t; at_blocked := at_blocked t; at_late := at_late t; at_inv := at_inv t;
      at_ret := x; at_dec := at_dec t; at_onerr := at_onerr t; at_rel := at_rel t; at_get2 := at_get2 t |}.
 Definition at_set_dec (t : an_task) (x : list (nat * an_pair * Z)) : an_task :=
   {| at_opts := at_opts t; at_phase := at_phase t; at_fields := at_fields t; at_chan := at_chan t;
-     at_sent := at_sent t; at_pickup := at_pickup t; at_blocked := at_blocked t; at_inv := at_inv t;
+     at_sent := at_sent t; at_pickup := at_pickup t; at_blocked := at_blocked t; at_late := at_late t; at_inv := at_inv t;
      at_ret := at_ret t; at_dec := x; at_onerr := at_onerr t; at_rel := at_rel t; at_get2 := at_get2 t |}.
 Definition at_set_onerr (t : an_task) (x : list (an_err * Z)) : an_task :=
   {| at_opts := at_opts t; at_phase := at_phase t; at_fields := at_fields t; at_chan := at_chan t;
-     at_sent := at_sent t; at_pickup := at_pickup t; at_blocked := at_blocked t; at_inv := at_inv t;
+     at_sent := at_sent t; at_pickup := at_pickup t; at_blocked := at_blocked t; at_late := at_late t; at_inv := at_inv t;
      at_ret := at_ret t; at_dec := at_dec t; at_onerr := x; at_rel := at_rel t; at_get2 := at_get2 t |}.
 Definition at_set_rel (t : an_task) (x : list Z) : an_task :=
   {| at_opts := at_opts t; at_phase := at_phase t; at_fields := at_fields t; at_chan := at_chan t;
-     at_sent := at_sent t; at_pickup := at_pickup t; at_blocked := at_blocked t; at_inv := at_inv t;
+     at_sent := at_sent t; at_pickup := at_pickup t; at_blocked := at_blocked t; at_late := at_late t; at_inv := at_inv t;
      at_ret := at_ret t; at_dec := at_dec t; at_onerr := at_onerr t; at_rel := x; at_get2 := at_get2 t |}.
 Definition at_set_get2 (t : an_task) (x : list (an_pair * Z)) : an_task :=
   {| at_opts := at_opts t; at_phase := at_phase t; at_fields := at_fields t; at_chan := at_chan t;
-     at_sent := at_sent t; at_pickup := at_pickup t; at_blocked := at_blocked t; at_inv := at_inv t;
+     at_sent := at_sent t; at_pickup := at_pickup t; at_blocked := at_blocked t; at_late := at_late t; at_inv := at_inv t;
      at_ret := at_ret t; at_dec := at_dec t; at_onerr := at_onerr t; at_rel := at_rel t; at_get2 := x |}.
 
 (* inner callback waiting in innerCallbackChan: task, attempt, ctx1 deadline *)
@@ -239,7 +244,7 @@ Definition an_quiet (cfg : an_cfg) (s : an_state) (dt : Z) : bool :=
 
 Definition an_new_task (o : an_opts) (now : Z) (ph : an_phase) : an_task :=
   {| at_opts := o; at_phase := ph; at_fields := (None, AnNil); at_chan := [];
-     at_sent := now; at_pickup := 0; at_blocked := 0; at_inv := []; at_ret := []; at_dec := [];
+     at_sent := now; at_pickup := 0; at_blocked := 0; at_late := 0; at_inv := []; at_ret := []; at_dec := [];
      at_onerr := []; at_rel := []; at_get2 := [] |}.
 
 Definition an_saw_ok (s : an_state) (k a : nat) (d : Z) (saw : bool) : bool :=
@@ -290,7 +295,8 @@ Definition an_step (cfg : an_cfg) (s : an_state) (e : an_event) : option an_stat
       match at_phase t with
       | AnEnq a c =>
           if Nat.ltb (length (an_ichan s)) (an_N cfg) then
-            let t := at_set_blocked (at_set_phase t (AnWait a c)) (at_blocked t + (an_now s - c)) in
+            let t := at_set_late (at_set_blocked (at_set_phase t (AnWait a c)) (at_blocked t + (an_now s - c)))
+                                 (at_late t + Z.max 0 (an_now s - (c + ao_T (at_opts t)))) in
             Some {| an_now := an_now s; an_next := an_next s; an_tk := an_upd (an_tk s) k t;
                     an_tchan := an_tchan s; an_sendq := an_sendq s; an_active := an_active s;
                     an_ichan := an_ichan s ++ [(k, a, c + ao_T (at_opts t))];
